@@ -76,6 +76,8 @@ class Ctx:
             self.seed = 20260926
         self.t0 = time.time()
         self.violations = []      # (what, replay_path, found_input: bool)
+        self._keys = {}
+        self._keys_path = {}
         self.known = []           # strings
         self.cov = {}             # coverage dict for evidence
         self.assumptions = []
@@ -98,6 +100,12 @@ class Ctx:
 
     def violation(self, what, replay_text, found_input=True, key=None):
         """Registers a violation; writes the replay file. Returns its path."""
+        if key is not None:
+            # one replay per failure class: later cases of the same class are only counted
+            if key in self._keys:
+                self._keys[key] += 1
+                return self._keys_path[key]
+            self._keys[key] = 1
         os.makedirs(self.replay_dir, exist_ok=True)
         h = hashlib.sha1((key or what).encode() + replay_text.encode()).hexdigest()[:12]
         path = os.path.join(self.replay_dir, "%s.case" % h)
@@ -107,6 +115,8 @@ class Ctx:
             if not replay_text.endswith("\n"):
                 f.write("\n")
         self.violations.append((what, path, found_input))
+        if key is not None:
+            self._keys_path[key] = path
         return path
 
     # ---------------------------------------------------------------- finishing
